@@ -134,11 +134,17 @@ Definition gen_frame (g : gen) : option frame :=
   | _ => None                       (* the core.lpy generators are modelled in LazySeq.v only *)
   end.
 
-(** seq(c) returns [o] normally to the frames [k] of thread [th]. A return straight to a consumer
-    (at most the consumer's own frame left) is logged. *)
+(** frames of Python code and of calls that have not taken a mutex (yet): everything except the three
+    kinds of frame that sit inside seq / _compute_seq with the cell mutex held *)
+Definition plain (fr : frame) : bool :=
+  match fr with KCompRet _ _ _ | KUnwrap _ _ | KUnwrapRet _ => false | _ => true end.
+
+(** seq(c) returns [o] normally to the frames [k] of thread [th].  A return to a CONSUMER -- the thread is
+    then not inside any other seq / _compute_seq, i.e. not inside the realization of some cell -- is logged
+    (ghost state for the agreement theorem). *)
 Definition seq_return (st : mstate) (t : tid) (th : thread) (k : list frame) (c : cid) (o : obj) : mstate :=
   let st1 := set_thr st t (th_set th k (Some (Ok o))) in
-  if Nat.leb (length k) 1 then add_log st1 c o else st1.
+  if forallb plain k then add_log st1 c o else st1.
 
 (** a consumer operation whose argument is not a LazySeq needs no call *)
 Definition kind_obs (o : obj) : obs := BKind (kind_of o).
